@@ -77,6 +77,11 @@ def build_mesh(m):
         mesh = fem.Circle(n=int(n[0] if isinstance(n, (list, tuple)) else n), radius=m.get("radius", 1.0))
     else:
         raise ValueError(gen)
+    if m.get("roll") and mesh.cell_type in ("quad", "hexahedron"):
+        # every cell starts at another corner (cyclic permutation of the local numbering: valid,
+        # same geometry, positive volumes)
+        order = [1, 2, 3, 0] if mesh.cell_type == "quad" else [1, 2, 3, 0, 5, 6, 7, 4]
+        mesh = fem.Mesh(mesh.points, mesh.cells[:, order], mesh.cell_type)
     p = m.get("perturb")
     if p and m.get("perturb_before_convert", True):
         mesh = _perturb(mesh, p["seed"], p["amp"])
@@ -100,6 +105,17 @@ def build_mesh(m):
         mesh = mesh.rotate(r["angle"], axis=r.get("axis", 2))
         pts = mesh.points + np.asarray(r["shift"], dtype=float)[: mesh.dim]
         mesh = fem.Mesh(pts, mesh.cells, mesh.cell_type)
+    rn = m.get("renumber")
+    if rn:
+        # a valid but unusual numbering: points and cells in shuffled order
+        prng = np.random.default_rng(rn["seed"])
+        perm = prng.permutation(mesh.npoints)  # new point k is old point perm[k]
+        inv = np.empty_like(perm)
+        inv[perm] = np.arange(mesh.npoints)
+        cells = inv[mesh.cells]
+        if rn.get("cells", True):
+            cells = cells[prng.permutation(len(cells))]
+        mesh = fem.Mesh(mesh.points[perm], cells, mesh.cell_type)
     ex = m.get("extra_point") or m.get("orphan_point")
     if ex:
         mesh = fem.Mesh(np.vstack([mesh.points, np.asarray(ex, dtype=float)[: mesh.dim]]), mesh.cells, mesh.cell_type)
@@ -308,11 +324,16 @@ class World:
                 return fem.SolidBodyGravity(f, gravity=self._load_vector(it["gravity"]), density=it.get("density", 1.0))
         if t == "PointLoad":
             kw = {"axisymmetric": True} if it.get("axisymmetric") else {}
-            return fem.PointLoad(f, self._points(it["points"]), values=np.asarray(it["values"], dtype=float), **kw)
+            pts = self._points(it["points"])
+            if it.get("order") == "reversed":
+                pts = pts[::-1].copy()  # a point list that is not sorted
+            return fem.PointLoad(f, pts, values=np.asarray(it["values"], dtype=float), **kw)
         if t in ("MultiPointConstraint", "MultiPointContact"):
             pts = self._points(it["points"])
             cp = int(self._points(it["centerpoint"])[0])
             pts = pts[pts != cp]
+            if it.get("negative_index"):
+                cp = cp - self.mesh.npoints  # the same point, counted from the end (as in the docs: -1)
             cls = getattr(fem, t)
             return cls(f, points=pts, centerpoint=cp, skip=tuple(it.get("skip", (False,) * self.mesh.dim)), multiplier=it.get("multiplier", 1e3))
         if t == "FormItem":
@@ -489,7 +510,9 @@ class World:
         if tgt == "bc:patch":
             H = np.asarray(r["H"], dtype=float)
             X = self.mesh.points[self.patch_points]
-            return float(r["values"][i]) * (X @ H.T)
+            v = float(r["values"][i]) * (X @ H.T)
+            # the same numbers in column-major memory layout (e.g. built as np.array([ux, uy]).T)
+            return np.asfortranarray(v) if self.doc.get("seed", 0) % 3 == 0 else v
         v = r["values"][i]
         if isinstance(v, list):
             v = np.asarray(v, dtype=float)
@@ -511,7 +534,11 @@ class World:
             else:
                 obj = self.items[int(tgt[5:])]
             if tgt == "bc:patch":
-                vals = np.asarray(vals)
+                if all(v.flags.f_contiguous and not v.flags.c_contiguous for v in vals):
+                    # one table whose rows are column-major (npoints, dim) views
+                    vals = np.ascontiguousarray(np.asarray([v.T for v in vals])).transpose(0, 2, 1)
+                else:
+                    vals = np.asarray(vals)
             elif all(np.isscalar(v) for v in vals):
                 vals = np.asarray(vals, dtype=float)
             elif all(isinstance(v, np.ndarray) for v in vals) and len({v.shape for v in vals}) == 1:
